@@ -49,7 +49,7 @@ class C11(Prop):
             'stopTestRun, 15% in unusual order. thorough adds every tree with <= 2 inner nodes on a path and fan-out <= 2 over a fixed '
             '5-call script. non-trivial = at least one status call and (>= 2 leaves or a field-owning decorator on some path); '
             'distinct = distinct input S-expression')
-    assumptions = ['translator tie (harness/pystream.py): TimestampingStreamResult.status and StreamToQueue.route_code are symbolically executed; the queue dict, the status signatures, CopyStreamResult and StreamFailFast.status are matched on every run; trusted: the translator and the reading of the recognised forms by TTV/Model/DecoSrc.lean (_strict_map(methodcaller(...)) = call every target in order)',
+    assumptions = ['translator tie (harness/pystream.py): TimestampingStreamResult.status and StreamToQueue.route_code are symbolically executed; the queue dict, the status signatures, CopyStreamResult and StreamFailFast.status are matched on every run; trusted: the translator and the reading of the recognised forms by TTV/Model/DecoSrc.lean (_strict_map(methodcaller(...)) = call every target in order = the plain for loop); trusted normalisations before comparing: `timestamp or now` = `now if timestamp is None` (a datetime is never false), the timestamp written back into kwargs instead of popped and passed by keyword, a + "/" + b = "/".join((a, b)) = f"{a}/{b}" for str, dict(...) = dict literal with the key order immaterial, the adjusted route code / the dict bound to a local first, `in (…)` = `==`/`or` chain = early return on `not in` for StreamFailFast - the order of super() and the targets is asserted as written',
                    'datetime.now(utc) is an oracle value: canonicalised to `now` after checking it is tz-aware UTC and inside the run window',
                    'Python set/frozenset object identity and mutation are modelled by a heap of tag lists; the queue handed to StreamToQueue dispatches each event to the inner result synchronously',
                    'status() is called with the first k parameters positional (k varies with the input) and the rest by keyword, except that the field a `*args, **kwargs` decorator owns is always passed by keyword (StreamTagger: test_tags, TimestampingStreamResult: timestamp - passing those positionally through them raises TypeError in the unchanged code: outside the generated domain)']
